@@ -43,6 +43,9 @@ type Config struct {
 	// single-P Go runtime would order them), choosing the k-th alternative costs
 	// k delays and only schedules of total cost <= DelayBound are explored.
 	DelayBound       int
+	// ClaimPrefixes: when non-empty, assertions whose label starts with a property
+	// tag ("Cnn:") that is not listed are skipped (see pathState.assert)
+	ClaimPrefixes    []string
 	GoOrder          bool
 	Trace            bool
 }
@@ -85,6 +88,21 @@ type Engine struct {
 	discharged   int
 	deadlineHit  bool
 	globalsProto map[*ssa.Global]bool
+}
+
+// siblingLabel reports whether label carries the tag of a property other than
+// the ones this run claims.
+func (e *Engine) siblingLabel(label string) bool {
+	if len(e.Cfg.ClaimPrefixes) == 0 || len(label) < 4 || label[0] != 'C' || label[3] != ':' ||
+		label[1] < '0' || label[1] > '9' || label[2] < '0' || label[2] > '9' {
+		return false
+	}
+	for _, p := range e.Cfg.ClaimPrefixes {
+		if strings.HasPrefix(label, p) {
+			return false
+		}
+	}
+	return true
 }
 
 func (e *Engine) noteUnknown(what string) {
